@@ -171,21 +171,58 @@ fn cmd_run(args: &[String]) -> i32 {
         println!("KNOWN-FINDING: property={} {} (hit {} times; e.g. {})", prop, what, n, detail);
     }
 
-    // determinism: re-execute a sample single-threaded and compare digests
+    // determinism: re-execute a sample single-threaded and compare digests (a few early
+    // runs, which have few predecessors, and a few spread over the batch)
     let mut resampled = (0u64, 0u64);
-    {
-        let step = (res.digests.len() / 16).max(1);
-        for (i, d) in res.digests.iter().step_by(step).take(16) {
-            let plan = Gen::new(&env, run_seed(verif_seed, scenario, *i), tier).plan(scenario);
+    let mut first_mismatch: Option<u64> = None;
+    if res.failure.is_none() {
+        let step = (res.digests.len() / 8).max(1);
+        let mut picks: Vec<(u64, u64)> = res.digests.iter().skip(24).step_by(29).take(12).cloned().collect();
+        picks.extend(res.digests.iter().step_by(step).take(8).cloned());
+        picks.sort();
+        picks.dedup();
+        for (i, d) in picks {
+            let plan = Gen::new(&env, run_seed(verif_seed, scenario, i), tier).plan(scenario);
             let mut st = Stats::default();
             let (o, _) = execute(&env, &plan, &mut st, exec_opts(scenario, false));
             resampled.0 += 1;
-            if o.digest != *d {
+            if o.digest != d {
                 resampled.1 += 1;
+                if first_mismatch.is_none() && i > 0 {
+                    first_mismatch = Some(i);
+                }
             }
         }
-        if resampled.1 > 0 {
-            die(&format!("determinism broken: {} of {} re-executed runs gave a different digest", resampled.1, resampled.0));
+    }
+    if resampled.1 > 0 {
+        // harness nondeterminism, or riti contexts sharing state through the process?
+        let victim = first_mismatch.unwrap_or(1);
+        println!("{} of {} re-executed runs gave a different digest; deciding in fresh processes whether contexts share state (victim run {})", resampled.1, resampled.0, victim);
+        match shared_state_search(&env, scenario, tier, verif_seed, victim) {
+            Some(rep) if scenario == Scenario::HistoryIndependence => {
+                let path = report_shared_state(&env, &rep);
+                println!("violated clause: process-state-shared");
+                println!("detail: {}", rep.detail);
+                for (k, p) in rep.prefix_plans.iter().enumerate() {
+                    println!("earlier history {} (other contexts, same process):", k);
+                    for l in describe_plan(&env, p) {
+                        println!("    {}", l);
+                    }
+                }
+                println!("history whose outcome changes:");
+                for l in describe_plan(&env, &rep.plan) {
+                    println!("    {}", l);
+                }
+                let ex = EvidenceExtra { level: "exploration", rule: rule_for(scenario), assumptions: assumptions_for(scenario), extra: serde_json::json!({}) };
+                let _ = write_evidence(&env, &verif, &cfg, &res, 1, resampled, &ex);
+                println!("VIOLATION property={} replay={}", prop, path);
+                return 1;
+            }
+            Some(rep) => die(&format!(
+                "runs depend on what ran earlier in the process: riti contexts share state through the process ({}). That is a violation of C05 (./check C05 reports it with a replay), not of {}; this check cannot judge {} on such a tree",
+                rep.detail, prop, prop
+            )),
+            None => die(&format!("determinism broken: {} of {} re-executed runs gave a different digest, and fresh processes do not attribute it to state shared between contexts", resampled.1, resampled.0)),
         }
     }
 
@@ -324,6 +361,7 @@ fn handle_suspect(args: &[String], end: watch::ChildEnd, out: &str) -> i32 {
         minimiser_executions: execs,
         failing_op_index: op,
         plan: plan.clone(),
+        prefix_plans: Vec::new(),
     };
     for index in runs {
         let plan = Gen::new(&env, run_seed(verif_seed, scenario, index), tier).plan(scenario);
@@ -426,12 +464,219 @@ fn handle_suspect(args: &[String], end: watch::ChildEnd, out: &str) -> i32 {
     die(&format!("the simulator child ended with {:?} ({}), but none of the suspected runs reproduces it in a fresh process", end, line.trim()))
 }
 
+/// `seq-digest <file> [--alone]`: executes the file's prefix plans (unless --alone) and then
+/// its plan, sequentially in this fresh process, and prints the digest of the last one.
+fn cmd_seq_digest(args: &[String]) -> i32 {
+    let path = args.get(0).cloned().unwrap_or_else(|| die("seq-digest: file missing"));
+    let alone = args.iter().any(|a| a == "--alone");
+    let text = std::fs::read_to_string(&path).unwrap_or_else(|e| die(&format!("{}: {}", path, e)));
+    let rep: Replay = serde_json::from_str(&text).unwrap_or_else(|e| die(&format!("{}: {}", path, e)));
+    let env = Env::load().unwrap_or_else(|e| die(&e));
+    if !alone {
+        for p in &rep.prefix_plans {
+            let mut st = Stats::default();
+            let _ = execute(&env, p, &mut st, exec_opts(p.scenario, false));
+        }
+    }
+    let mut st = Stats::default();
+    let (o, _) = execute(&env, &rep.plan, &mut st, exec_opts(rep.plan.scenario, false));
+    println!("DIGEST {:016x} {}", o.obs_digest, match o.end { End::Ok => "ok", End::Violation(_) => "violation", End::Inconclusive(_) => "inconclusive", End::Harness(_) => "harness" });
+    0
+}
+
+fn child_digest(dir: &str, rep: &Replay, alone: bool) -> Option<String> {
+    let path = format!("{}/seq-{}-{}.json", dir, std::process::id(), if alone { "a" } else { "p" });
+    std::fs::write(&path, serde_json::to_vec(rep).unwrap()).ok()?;
+    let mut args = vec!["seq-digest".to_string(), path.clone()];
+    if alone {
+        args.push("--alone".into());
+    }
+    let (end, out) = watch::run_child(&args, Duration::from_secs(600), false);
+    let _ = std::fs::remove_file(&path);
+    if end != watch::ChildEnd::Exit(0) {
+        return None;
+    }
+    out.lines().find(|l| l.starts_with("DIGEST ")).map(|l| l.to_string())
+}
+
+/// A run whose digest depends on what ran earlier in the process: either the harness is
+/// not deterministic, or riti contexts share state through the process (a static, a
+/// thread-local). The second is exactly what C05 forbids ("while other contexts are being
+/// used in the same process"). Decided with fresh child processes: the victim alone vs the
+/// victim after earlier histories; the set of earlier histories is minimised.
+fn shared_state_search(env: &Env, scenario: Scenario, tier: Tier, verif_seed: u64, victim: u64) -> Option<Replay> {
+    let dir = format!("{}/.cache", env.paths.verif);
+    let plan_of = |i: u64| Gen::new(env, run_seed(verif_seed, scenario, i), tier).plan(scenario);
+    let vplan = plan_of(victim);
+    let mk = |prefix: Vec<plan::Plan>, plan: &plan::Plan| Replay {
+        property: scenario.property().to_string(),
+        scenario: scenario.name().to_string(),
+        clause: "process-state-shared".into(),
+        detail: String::new(),
+        verif_seed,
+        run_index: victim,
+        run_seed: run_seed(verif_seed, scenario, victim),
+        tier: tier_name(tier).to_string(),
+        original_ops: plan.ops.len(),
+        minimised_ops: plan.ops.len(),
+        minimiser_executions: 0,
+        failing_op_index: 0,
+        plan: plan.clone(),
+        prefix_plans: prefix,
+    };
+    let alone = child_digest(&dir, &mk(vec![], &vplan), true)?;
+    // twice alone must agree, otherwise it is the harness that is not deterministic
+    if child_digest(&dir, &mk(vec![], &vplan), true)? != alone {
+        return None;
+    }
+    let mut prefix: Vec<u64> = (0..victim).collect();
+    let differs = |idx: &[u64]| -> bool {
+        let plans: Vec<plan::Plan> = idx.iter().map(|i| plan_of(*i)).collect();
+        matches!(child_digest(&dir, &mk(plans, &vplan), false), Some(d) if d != alone)
+    };
+    if prefix.is_empty() || !differs(&prefix) {
+        return None;
+    }
+    // ddmin over the set of earlier histories
+    let mut chunk = (prefix.len() / 2).max(1);
+    let mut execs = 0;
+    loop {
+        let mut removed = false;
+        let mut i = 0;
+        while i < prefix.len() && execs < 80 {
+            let e = (i + chunk).min(prefix.len());
+            if e - i >= prefix.len() {
+                i += chunk;
+                continue;
+            }
+            let mut cand = prefix.clone();
+            cand.drain(i..e);
+            execs += 1;
+            if differs(&cand) {
+                prefix = cand;
+                removed = true;
+            } else {
+                i += chunk;
+            }
+        }
+        if execs >= 80 {
+            break;
+        }
+        if chunk == 1 {
+            if !removed {
+                break;
+            }
+        } else {
+            chunk = (chunk / 2).max(1);
+        }
+    }
+    // shrink the one remaining poisoning history and the victim, op by chunk
+    let mut pplans: Vec<plan::Plan> = prefix.iter().map(|i| plan_of(*i)).collect();
+    let mut v = vplan.clone();
+    let still = |pp: &Vec<plan::Plan>, v: &plan::Plan| -> bool {
+        let a = child_digest(&dir, &mk(vec![], v), true);
+        let b = child_digest(&dir, &mk(pp.clone(), v), false);
+        matches!((a, b), (Some(a), Some(b)) if a != b && a.ends_with("ok") && b.ends_with("ok"))
+    };
+    let mut budget = 60;
+    for which in 0..=pplans.len() {
+        let len = if which < pplans.len() { pplans[which].ops.len() } else { v.ops.len() };
+        let mut chunk = (len / 2).max(1);
+        loop {
+            let mut removed = false;
+            let mut i = 0;
+            loop {
+                let cur_len = if which < pplans.len() { pplans[which].ops.len() } else { v.ops.len() };
+                if i >= cur_len || budget == 0 {
+                    break;
+                }
+                let e = (i + chunk).min(cur_len);
+                // never remove the first op (the spawn) of a history
+                if i == 0 && e >= cur_len || i == 0 {
+                    i += 1.max(chunk.min(1));
+                    continue;
+                }
+                let mut pp = pplans.clone();
+                let mut vv = v.clone();
+                if which < pp.len() {
+                    pp[which].ops.drain(i..e);
+                } else {
+                    vv.ops.drain(i..e);
+                }
+                budget -= 1;
+                if still(&pp, &vv) {
+                    pplans = pp;
+                    v = vv;
+                    removed = true;
+                } else {
+                    i += chunk;
+                }
+            }
+            if budget == 0 {
+                break;
+            }
+            if chunk == 1 {
+                if !removed {
+                    break;
+                }
+            } else {
+                chunk = (chunk / 2).max(1);
+            }
+        }
+    }
+    let mut rep = mk(pplans, &v);
+    rep.original_ops = vplan.ops.len();
+    rep.minimised_ops = v.ops.len();
+    rep.detail = format!(
+        "the history of run {} shows something else when {} other histor{} (on other contexts) ran earlier in the same process than when it runs alone in a fresh process: contexts share state through the process",
+        victim,
+        rep.prefix_plans.len(),
+        if rep.prefix_plans.len() == 1 { "y" } else { "ies" }
+    );
+    Some(rep)
+}
+
+fn report_shared_state(env: &Env, rep: &Replay) -> String {
+    let dir = format!("{}/replays/{}", env.paths.verif, rep.property);
+    let _ = std::fs::create_dir_all(&dir);
+    let mut v = serde_json::to_value(rep).unwrap();
+    v["readable_prefix_ops"] = serde_json::json!(rep.prefix_plans.iter().map(|p| describe_plan(env, p)).collect::<Vec<_>>());
+    v["readable_ops"] = serde_json::json!(describe_plan(env, &rep.plan));
+    let text = serde_json::to_string_pretty(&v).unwrap();
+    let path = format!("{}/{}-{}-shared-{:08x}.json", dir, rep.verif_seed, rep.run_index, prng::fnv(text.as_bytes()) as u32);
+    std::fs::write(&path, text).unwrap_or_else(|e| die(&format!("{}: {}", path, e)));
+    path
+}
+
 /// `replay` runs the recorded history in a child too: it may not return.
 fn cmd_replay_parent(args: &[String]) -> i32 {
     let path = args.get(0).cloned().unwrap_or_else(|| die("replay: file missing"));
     let text = std::fs::read_to_string(&path).unwrap_or_else(|e| die(&format!("{}: {}", path, e)));
     if text.contains("\"ffi_lifecycle\"") {
         return cmd_replay(args);
+    }
+    if let Ok(rep) = serde_json::from_str::<Replay>(&text) {
+        if rep.clause == "process-state-shared" {
+            let env = Env::load().unwrap_or_else(|e| die(&e));
+            let dir = format!("{}/.cache", env.paths.verif);
+            let a = child_digest(&dir, &rep, true);
+            let b = child_digest(&dir, &rep, false);
+            println!("alone in a fresh process:            {:?}", a);
+            println!("after the recorded earlier histories: {:?}", b);
+            return match (a, b) {
+                (Some(a), Some(b)) if a != b => {
+                    println!("clause: process-state-shared");
+                    println!("REPRODUCED (same clause as recorded: process-state-shared)");
+                    println!("VIOLATION property={} replay={}", rep.property, path);
+                    1
+                }
+                (Some(_), Some(_)) => {
+                    println!("NOT REPRODUCED (the history shows the same in both processes)");
+                    0
+                }
+                _ => 2,
+            };
+        }
     }
     let recorded = serde_json::from_str::<Replay>(&text).map(|r| (r.clause, r.property)).unwrap_or_default();
     let (end, _) = watch::run_child(&["replay-inner".to_string(), path.clone()], Duration::from_secs(30), true);
@@ -636,6 +881,7 @@ fn main() {
             }
             rc
         }
+        Some("seq-digest") => cmd_seq_digest(&args[1..]),
         Some("replay") => cmd_replay_parent(&args[1..]),
         Some("replay-inner") => {
             watch::install_signal_handler();
